@@ -114,8 +114,28 @@ func (o *OvsdbServer) Serve(protocol string, path string) error {
 		}
 
 		// TODO: Need to cleanup when connection is closed
-		go o.srv.ServeCodec(jsonrpc.NewJSONCodec(conn))
+		go o.srv.ServeCodec(&serialWriteCodec{Codec: jsonrpc.NewJSONCodec(conn)})
 	}
+}
+
+// serialWriteCodec serialises the writes of a codec. rpc2 writes requests
+// (the update notifications) under one lock and responses under none, while
+// the JSON codec shares one encoder between both.
+type serialWriteCodec struct {
+	rpc2.Codec
+	mu sync.Mutex
+}
+
+func (c *serialWriteCodec) WriteRequest(r *rpc2.Request, v interface{}) error {
+	c.mu.Lock()
+	defer c.mu.Unlock()
+	return c.Codec.WriteRequest(r, v)
+}
+
+func (c *serialWriteCodec) WriteResponse(r *rpc2.Response, v interface{}) error {
+	c.mu.Lock()
+	defer c.mu.Unlock()
+	return c.Codec.WriteResponse(r, v)
 }
 
 func isClosed(ch <-chan struct{}) bool {
